@@ -33,6 +33,8 @@ func checkC04(p *Prog, r *Report) {
 	sessionOpenRule(p, r, "C04.R14")
 	// a reader helper declared on the record VALUE fills a copy (shared with C13.lost-writes)
 	lostWrites(p, r, "C04.R15")
+	// the column a quantity is read from is the one whose header name equals a name of the alias table (shared with C13.headers)
+	c13Headers(p, r, "C04.R16")
 }
 
 // ---------------------------------------------------------------- R1 weather errors propagate
